@@ -214,7 +214,10 @@ static bool sendProbeMsg(ethernet_address_t src,
      * Probe/Train frames per MS-LLTD:
      * - Ethernet dest = emitee dest (apparent, next-hop)
      * - Ethernet src  = emitee src (we're spoofing the sender)
-     * - LLTD realDest = mapper's real address (end-to-end)
+     * - LLTD realDest = emitee dest: the station the probe is meant for.
+     *   The observing side (parseProbe) records a Probe/Train only if its
+     *   real destination is its own address, so anything else here makes
+     *   the frame invisible to a peer running this same responder.
      * - LLTD realSrc  = our MAC (end-to-end identity)
      * The emitee src/dst are what the mapper told us to use on the wire.
      */
@@ -222,7 +225,7 @@ static bool sendProbeMsg(ethernet_address_t src,
                     (const ethernet_address_t *)&src,                               /* ethSource: emitee src */
                     (const ethernet_address_t *)&dst,                               /* ethDest: emitee dst */
                     (const ethernet_address_t *)&our_mac,                            /* realSource: our MAC */
-                    &st->mapper_real,                                               /* realDest: mapper real */
+                    (const ethernet_address_t *)&dst,                               /* realDest: emitee dst */
                     0, code, tos_discovery);
 
     log_lltd_frame("TX",
